@@ -130,10 +130,8 @@ class ExplorerScriptMacro:
         for blueprint_op in self.blueprints:
             # If this a start / end of a macro, update the macro callstack
             if isinstance(blueprint_op, MacroStartSsbLabel):
-                smb.macro_context__push(
-                    op_idx_counter.count + blueprint_op.length_of_macro,
-                    self._replace_in_param_mapping(blueprint_op.parameter_mapping, parameters),
-                )
+                replaced_mapping = self._replace_in_param_mapping(blueprint_op.parameter_mapping, parameters)
+                smb.macro_context__push(op_idx_counter.count + blueprint_op.length_of_macro, replaced_mapping)
             elif isinstance(blueprint_op, MacroEndSsbLabel):
                 smb.macro_context__pop()
 
@@ -142,6 +140,9 @@ class ExplorerScriptMacro:
                     # Copy the label with a new proper index
                     new_labels[blueprint_op.id] = self._copy_blueprint_label(lbl_idx_counter, blueprint_op)
                     new_labels[blueprint_op.id].markers = blueprint_op.markers.copy()
+                    if isinstance(blueprint_op, MacroStartSsbLabel):
+                        # The copy is the blueprint of the next level: it has to carry the substituted values.
+                        new_labels[blueprint_op.id].parameter_mapping = replaced_mapping  # type: ignore
                 out_ops.append(new_labels[blueprint_op.id])
             elif isinstance(blueprint_op, SsbLabelJump):
                 assert blueprint_op.label is not None
